@@ -7,4 +7,6 @@ for p in "$@"; do
   echo "== $p"; (cd /verif && ./check "$p" 2>&1 | grep -E "VIOLATION|KNOWN|held|Error" | head -5)
 done
 git -C /repo checkout -- .
+# leave the regenerated tables in the state of the unchanged tree
+(cd /verif && .build/translator/debug/rs2v /repo coq/Gen >/dev/null && python3 tools/uapi_gen.py coq/Gen >/dev/null)
 git -C /repo status --short
